@@ -58,7 +58,7 @@ Print Assumptions C01_to_app_complete.
 Theorem C01_to_client_complete : forall m sc ws,
   Forall (fun x => 0 < x) (sc_copy sc) -> Forall (fun old => old <> []) (sc_bufs sc) ->
   (List.length (concat ws) <= List.length (sc_copy sc))%nat ->
-  (List.length (concat ws) <= List.length (sc_bufs sc))%nat ->
+  (List.length (concat ws) + List.length ws <= List.length (sc_bufs sc))%nat ->
   exists outs,
     to_client m gen_decode_alloc_max gen_max_read_size gen_side_chunk sc ws = (outs, []) /\
     concat outs = concat ws.
@@ -106,6 +106,25 @@ Theorem C01_side_write_frames : forall buf,
     Forall (fun f => lenN f = gen_side_chunk) (removelast fs).
 Proof. exact (fun buf => side_write_spec gen_side_chunk buf gen_side_chunk_pos). Qed.
 Print Assumptions C01_side_write_frames.
+
+(** A Write that fails part-way - NextWriter, the message writer's Write
+    after accepting any number of bytes, or its Close, at any frame: the call
+    returns a non-nil error together with n (never a silent short count); n
+    is exactly the number of bytes of the completed messages plus what the
+    failing message accepted (for a failing Close: the whole message, whose
+    delivery is then unknown), and those bytes are a prefix of the buffer.
+    Zero-length buffers: no message, n = 0 ([C01_side_write_frames]). *)
+Theorem C01_side_write_failure : forall buf fail_at how,
+  match side_write_f gen_side_chunk buf fail_at how with
+  | WOkF n fs => n = lenN buf /\ concat fs = buf
+  | WErrF n fs part =>
+      n <= lenN buf /\ concat fs ++ part = firstn (N.to_nat n) buf /\ n = lenN (concat fs ++ part)
+  | WFuelF => False
+  end.
+Proof.
+  exact (fun buf fa how => side_write_f_spec gen_side_chunk buf fa how gen_side_chunk_pos).
+Qed.
+Print Assumptions C01_side_write_failure.
 
 (** sideConn.Read with a non-empty buffer, any state of the curReader
     machine, any behaviour of the message reader: data (non-empty, at most the
@@ -164,7 +183,7 @@ Theorem C01_progress :
   (forall m b got e b',
      binv gen_hello_buf_size b -> 0 < m -> remaining b <> [] ->
      bread gen_hello_buf_size m b = (got, e, b') ->
-     (List.length (remaining b') < List.length (remaining b))%nat /\ e = None).
+     (List.length (remaining b') < List.length (remaining b))%nat /\ got <> []).
 Proof.
   exact (conj side_read_progress (conj pipe_read_progress
           (fun m b got e b' Hinv =>
@@ -257,7 +276,7 @@ Definition ex_stream : bytes :=
 (** The same stream through both mechanisms with hostile schedules: 1-byte
     TCP segments at first, small application buffers. *)
 Example C01_nonvacuous_to_app :
-  let sc := mkSched ([1; 1; 1; 2; 3] ++ rep 1460 20) (rep 32768 8) [(100, false); (1, true)]
+  let sc := mkSched ([1; 1; 1; 2; 3] ++ rep 1460 20) true (rep 32768 8) [(100, false); (1, true)]
                     (rep 7 3 ++ rep 4096 20) [] in
   match to_app TLegacy gen_hello_buf_size gen_side_chunk sc ex_stream,
         to_app TSide gen_hello_buf_size gen_side_chunk sc ex_stream with
@@ -295,3 +314,24 @@ Example C01_nonvacuous_later_reads :
   side_reads [8; 8] [] (mkS None [MBin [1; 2]; MText]) = ([[1; 2]; []], SEof, mkS None []) /\
   side_read 8 [] (mkS None []) = ([], SBlock, mkS None [], []).
 Proof. repeat split. Qed.
+
+(** 10 000 bytes, the third frame's Close fails: n = 10 000 (all three frames
+    counted), two complete messages; NextWriter failing at the third frame:
+    n = 8192; a zero-length Write sends nothing. *)
+Example C01_nonvacuous_write_failure :
+  (match side_write_f gen_side_chunk (rep 7 10000) (Some 2%nat) FClose with
+   | WErrF n fs part => n = 10000 /\ map lenN fs = [4096; 4096] /\ lenN part = 1808
+   | _ => False end) /\
+  (match side_write_f gen_side_chunk (rep 7 10000) (Some 2%nat) FNext with
+   | WErrF n fs part => n = 8192 /\ part = []
+   | _ => False end) /\
+  side_write gen_side_chunk [] = WDone 0 [].
+Proof. vm_compute. repeat split. Qed.
+
+(** Zero-length Writes of the application in the legacy direction: each is
+    taken by one Read that returns no bytes; the stream is unaffected. *)
+Example C01_nonvacuous_zero_writes :
+  to_client TLegacy gen_decode_alloc_max gen_max_read_size gen_side_chunk
+    (mkSched [2; 2] false [] [] [] (repeat [170; 170; 170; 170] 6)) [[]; [1; 2; 3]; []; [4]]
+  = ([[1; 2]; [3; 4]], []).
+Proof. reflexivity. Qed.
